@@ -271,8 +271,13 @@ def run_case(case):
     try:
         _run(sim, case, r)
     finally:
-        sim.finish()
-        sim.close()
+        try:
+            sim.finish()
+        except Exception:
+            if not getattr(sim, 'dead', False):
+                raise
+        finally:
+            sim.close()
     return r
 
 
@@ -316,6 +321,7 @@ def _run(sim, case, r):
         loop.call_soon(lambda: loop.create_task(sim.app.face.callback(net.outer_type(resp), resp)))
     face.send = send
 
+    classes = []
     hiers = []
     for hi, hs in enumerate(case['hiers']):
         hiers.append(Hier(hs, 'ABC'[hi], store))
@@ -337,8 +343,18 @@ def _run(sim, case, r):
             anchor = h.certs[min(1, len(h.certs) - 1)]['wire'] if len(h.certs) > 1 else anchor
             if len(h.certs) == 1:
                 bad = None
+        # the anchor may be handed over in the caller's mutable buffer (what self_sign() returns), which the caller re-uses
+        # after the validator is built: the verdicts depend on the anchor as it was given at build time
+        arep = vs.get('anchor_rep', 0)
+        anchor_arg = anchor if arep == 0 else bytearray(anchor) if arep == 1 else memoryview(bytearray(anchor))
         try:
-            v = sim.vl.call(lvs_validator, checker, sim.app, anchor)
+            v = sim.vl.call(lvs_validator, checker, sim.app, anchor_arg)
+            if arep:
+                scratch = anchor_arg.obj if isinstance(anchor_arg, memoryview) else anchor_arg
+                other = hiers[(vs['hier'] + 1) % len(hiers)].anchor_wire
+                for i_ in range(len(scratch)):
+                    scratch[i_] = other[i_] if i_ < len(other) and len(hiers) > 1 else 0
+                classes.append('anchor-buffer-reused')
             if bad:
                 r.bad(f'C14/bad-anchor-accepted/{bad}', text)
                 return
@@ -360,7 +376,6 @@ def _run(sim, case, r):
         for label, name, wire in build_packets(h, h.spec, store, policy):
             pool.append((hi, label, name, wire))
     keys = set()
-    classes = []
     for pair in case.get('concurrent', []):
         # the same validator instance validates two packets at the same time (both need the same uncached certificates)
         vi = pair[0] % len(validators)
@@ -412,6 +427,43 @@ def _run(sim, case, r):
     r.classes = tuple(classes)
 
 
+def _wait_done(sim, tasks, r, tag):
+    """Advance up to 20 s of virtual time until the tasks are done -> True; a violation is recorded otherwise."""
+    from ..core import HarnessError
+    try:
+        for _ in range(40):
+            if all(t.done() for t in tasks):
+                return True
+            sim.vl.advance(0.5)
+    except HarnessError as e:
+        if 'never becomes idle' not in str(e):
+            raise
+        # the validation keeps the loop busy without any time passing (e.g. it chases a certificate loop for ever)
+        n_sent = len(sim.face.sent)
+        sim.dead = True
+        try:
+            sim.face.shutdown()       # no more certificate Interests can be sent: the chase runs dry
+            for t in tasks:
+                t.cancel()
+        except RecursionError:
+            pass
+        for _ in range(50):
+            try:
+                sim.vl.settle()
+                break
+            except (HarnessError, RecursionError):
+                continue
+        r.bad(f'C14/{tag}validation-does-not-terminate/busy-loop', f'2000 loop turns without the clock moving; {n_sent} packets sent')
+        return False
+    if all(t.done() for t in tasks):
+        return True
+    for t in tasks:
+        t.cancel()
+    sim.vl.settle()
+    r.bad(f'C14/{tag}validation-does-not-terminate', f'still running after 20 s of virtual time, {len(sim.face.sent)} packets sent')
+    return False
+
+
 def _validate(sim, v, wire, r):
     name, _mi, _c, sig = parse_data(wire)
     box = {}
@@ -424,14 +476,7 @@ def _validate(sim, v, wire, r):
         except Exception as e:
             box['exc'] = e
     t = sim.vl.run(_spawn(go()))
-    for _ in range(40):
-        if t.done():
-            break
-        sim.vl.advance(0.5)
-    if not t.done():
-        t.cancel()
-        sim.vl.settle()
-        r.bad('C14/validation-does-not-terminate', f'still running after 20 s of virtual time, {len(sim.face.sent)} packets sent')
+    if not _wait_done(sim, [t], r, ''):
         return None
     if 'exc' in box:
         if isinstance(box['exc'], RecursionError):
@@ -455,15 +500,7 @@ def _validate_many(sim, v, wires, r):
     async def spawn_all():
         return [asyncio.get_running_loop().create_task(go(i, w)) for i, w in enumerate(wires)]
     ts = sim.vl.run(spawn_all())
-    for _ in range(40):
-        if all(t.done() for t in ts):
-            break
-        sim.vl.advance(0.5)
-    if not all(t.done() for t in ts):
-        for t in ts:
-            t.cancel()
-        sim.vl.settle()
-        r.bad('C14/concurrent/validation-does-not-terminate', '')
+    if not _wait_done(sim, ts, r, 'concurrent/'):
         return None
     return [b.get('res', False) for b in boxes]
 
@@ -493,7 +530,8 @@ def _case(draw):
         hiers.append(twin)
     nv = draw(st.integers(1, 3))
     validators = [{'hier': draw(st.integers(0, 1)),
-                   'bad_anchor': draw(st.sampled_from([None, None, None, None, None, None, 'not-self-signed', 'not-root', 'two-roots']))}
+                   'bad_anchor': draw(st.sampled_from([None, None, None, None, None, None, 'not-self-signed', 'not-root', 'two-roots'])),
+                   'anchor_rep': draw(st.sampled_from([0, 0, 1, 2]))}
                   for _ in range(nv)]
     order = draw(st.lists(st.tuples(st.integers(0, 2), st.integers(0, 7)).map(list), min_size=1, max_size=6))
     if draw(st.booleans()):
